@@ -25,9 +25,12 @@ type Limits struct {
 }
 
 type Loader struct {
-	mu     sync.RWMutex
-	cache  map[string]*ast.Journal
-	limits Limits
+	mu    sync.RWMutex
+	cache map[string]*ast.Journal
+	// cacheErrors holds the parse errors of the cached files: a cache hit reports what a fresh
+	// read reports
+	cacheErrors map[string][]LoadError
+	limits      Limits
 	// epoch counts cache invalidations: a file read before an invalidation must not be
 	// cached after it
 	epoch uint64
@@ -263,6 +266,7 @@ func (l *Loader) loadSingleInclude(
 
 	l.mu.RLock()
 	journal, cached := l.cache[includePath]
+	cachedErrors := l.cacheErrors[includePath]
 	epoch := l.epoch
 	l.mu.RUnlock()
 
@@ -292,13 +296,20 @@ func (l *Loader) loadSingleInclude(
 		verifhook.At("loader.read", includePath)
 		var parseErrs []parser.ParseError
 		journal, parseErrs = parser.Parse(string(incContent))
-		errors = append(errors, parseErrorsToLoadErrors(includePath, parseErrs)...)
+		fileErrors := parseErrorsToLoadErrors(includePath, parseErrs)
+		errors = append(errors, fileErrors...)
 
 		l.mu.Lock()
 		if l.epoch == epoch {
 			l.cache[includePath] = journal
+			if l.cacheErrors == nil {
+				l.cacheErrors = make(map[string][]LoadError)
+			}
+			l.cacheErrors[includePath] = fileErrors
 		}
 		l.mu.Unlock()
+	} else {
+		errors = append(errors, cachedErrors...)
 	}
 
 	st.result.Files[includePath] = journal
@@ -347,6 +358,7 @@ func (l *Loader) ClearCache() {
 	l.mu.Lock()
 	defer l.mu.Unlock()
 	l.cache = make(map[string]*ast.Journal)
+	l.cacheErrors = nil
 	l.epoch++
 }
 
@@ -354,5 +366,6 @@ func (l *Loader) InvalidateFile(path string) {
 	l.mu.Lock()
 	defer l.mu.Unlock()
 	delete(l.cache, path)
+	delete(l.cacheErrors, path)
 	l.epoch++
 }
